@@ -27,6 +27,8 @@ typedef __int128 mathint;
 #define __CPROVER_assert(c, m) ((void)0)
 #define __CPROVER_assume(c) ((void)0)
 #endif
+/* R3: std::min<T>/std::max<T> are rendered as MIN_T / MAX_T */
+#define DEF_MINMAX(T) static T MIN_##T(T a, T b) { return b < a ? b : a; } static T MAX_##T(T a, T b) { return a < b ? b : a; }
 #define I64_MAX 9223372036854775807
 #define I64_MIN (-9223372036854775807 - 1)
 #define U64_MAX 18446744073709551615u
